@@ -944,6 +944,16 @@ def run(ctx: common.Ctx):
         do_lib(ctx, drv, lib_exh, pool, "exh")
         do_lib(ctx, drv, lib_rand, pool, "rand")
         do_cli(ctx, drv, cli_hist, pool)
+    if ctx.failures or ctx.disagreements:
+        dig = {}
+        for f in ctx.failures:
+            r = f["replay"]
+            k = f"{f['key'].get('kind')}|{r['history']['steps'][r['step']].get('lang')}|step{r['step']}|{r.get('path')}|{r.get('got')}|{r.get('expected')}"
+            dig[k] = dig.get(k, 0) + 1
+        for d in ctx.disagreements:
+            k = f"disagree|{d['stream']}|{d['input'].get('differs')}|step{d['input'].get('step')}"
+            dig[k] = dig.get(k, 0) + 1
+        ctx.extra["failure_digest"] = dig
 
 
 def replay(ctx, path):
